@@ -13,6 +13,20 @@ CHECKS = {
     note='single connection, dict backend with demo data, TLS handshake answered by the mock transport; only the control component is predicted (data effects: C10-C12); sequences beyond the depth bound are not explored (the random-beyond-the-bound clause is not attempted: sampling is outside the family)',
     technique='explicit-state model checking of the implementation (BFS over command histories, canonical-state dedup) against a reference FSM'),
 }
+CHECKS['C01'] = dict(
+    engine='E5 explicit-state BFS over vf/checks/seqmodel.py (step oracles)',
+    category='model_checking',
+    text='Exhaustive BFS over all interleavings of whole commands of 2-3 sessions that have the same dict-backend mailbox selected (14-17 commands per session incl. STORE/.SILENT/EXPUNGE/UID EXPUNGE/APPEND/COPY/MOVE/FETCH/SEARCH/NOOP/CHECK, IDLE and DONE as separate events, optional EXAMINE observer), depth 3-4 quick / 4-5 thorough. Under asyncio on the dict backend nothing inside a command suspends, so whole-command interleavings are all realizable interleavings (DESIGN F2/F3). After every tagged response each session\'s shadow client (built only from untagged data) is compared with the server\'s own sequence-number view; transcript rules (EXPUNGE range, EXISTS monotone, no EXPUNGE during non-UID FETCH/STORE/SEARCH, UID order, UID re-labelling) are enforced on every response.',
+    design_ref='DESIGN.md section 3 C01',
+    note='dict backend / asyncio subsystem only in this check; <= 3 sessions; depth bound; sub-command interleavings around IDLE and literals are explored by C16',
+    technique='explicit-state model checking of the implementation: BFS over command interleavings with shadow-client oracle')
+CHECKS['C02'] = dict(
+    engine='E5 explicit-state BFS over vf/checks/seqmodel.py (probe oracle)',
+    category='model_checking',
+    text='Same state space as C01. At every explored state, on a discarded copy of that state, every selecting session issues NOOP (thorough also CHECK) and its shadow view (count, UID per position, flags per message) must equal the stored mailbox read glass-box: no lost, phantom or stuck update.',
+    design_ref='DESIGN.md section 3 C02',
+    note='dict backend / asyncio subsystem; <= 3 sessions; depth bound; slots whose flags the server never reported are not compared',
+    technique='explicit-state model checking of the implementation: BFS over command interleavings, convergence oracle at every state')
 NA = {}
 
 def main():
